@@ -319,7 +319,12 @@ def execute(doc):
     except harness.SimulatedIOError:
       outcome = 'stream-failed'
     except Exception as e:  # pylint: disable=broad-except
-      outcome = 'raised:' + harness.exc_class(e)
+      # an implementation may wrap the stream's error in its own exception type
+      if fs is not None and fs.raised:
+        outcome = 'stream-failed'
+        rec.probe('stream_error_wrapped')
+      else:
+        outcome = 'raised:' + harness.exc_class(e)
     if prev is not None and core.digest(prev) != prev_digest:
       rec.violate('C09/previous-modified', step,
                   'the dict passed as previous_calibration_result changed across a calibrate() that %s'
